@@ -187,7 +187,12 @@ LFOR:
 				} else {
 					p.parseErr("expect , or }")
 				}
+			default:
+				p.parseErr("expect , or } or =")
 			}
+		default:
+			// anything else, including the end of the file, must not leave the loop spinning
+			p.parseErr("expect enum member or }")
 		}
 	}
 	p.expect(token.Semi)
